@@ -60,6 +60,13 @@ def noise_roles(repo):
                 for x in list(c.args) + [k.value for k in c.keywords]:
                     if is_self_attr(x) and x.attr in cls.methods:
                         r["stream_cb"] = x.attr
+    if r["flush"] is None and r["proto"]:
+        # the frame goes through a local on its way up: the method that both takes frames from the protocol and delivers
+        for name, fn in cls.methods.items():
+            takes = any(isinstance(x, ast.Call) and isinstance(x.func, ast.Attribute) and x.func.attr == "receive" and is_self_attr(x.func.value, r["proto"]) for x in ast.walk(fn))
+            ups = any(isinstance(c, ast.Call) and is_self_attr(c.func, "toUpper") for c in ast.walk(fn))
+            if takes and ups:
+                r["flush"] = name
     # the flush function proper is the one that takes the lock around the delivering code (the delivering loop may have
     # been extracted into a helper it calls)
     if r["flush"] and r["lock"]:
